@@ -30,7 +30,7 @@ static EbErrorType payload_creator(EbPtr *obj, EbPtr init) { (void)init; Payload
 static EbSystemResource *R;
 enum { ST_EMPTY, ST_PROD, ST_FULL, ST_CONS };
 static int obj_state[NOBJ], obj_need[NOBJ];
-static int next_seq, exp_seq, shutdown_issued;
+static int next_seq, exp_seq, shutdown_issued, shutdown_done, sd_pc;
 /* thread program counters: producer 0 = idle, 1 = registered for an empty object, 2 = holds an object (next: post)
    consumer 0 = idle, 1 = registered for a full object, 2 = holds an object (next: release) */
 static int p_pc; static EbObjectWrapper *p_held;
@@ -112,7 +112,16 @@ void harness(void) {
         cur = t;
         if (t == 0) step_producer();
         else if (t <= NCONS) { if (c_gone[t - 1]) continue; step_consumer(t - 1); }
-        else { if (shutdown_issued) continue; shutdown_issued = 1; svt_shutdown_process(R); }
+#ifdef SPLIT_SHUTDOWN
+        else {   /* svt_shutdown_process: for each consumer fifo, the pieces of svt_fifo_shutdown in order, one scheduler step each */
+            if (sd_pc >= NCONS * FIFO_SHUTDOWN_PIECES) continue;
+            shutdown_issued = 1;
+            fifo_shutdown_piece(svt_system_resource_get_consumer_fifo(R, (uint32_t)(sd_pc / FIFO_SHUTDOWN_PIECES)), sd_pc % FIFO_SHUTDOWN_PIECES);
+            sd_pc++; if (sd_pc == NCONS * FIFO_SHUTDOWN_PIECES) shutdown_done = 1;
+        }
+#else
+        else { if (shutdown_issued) continue; shutdown_issued = 1; shutdown_done = 1; svt_shutdown_process(R); }
+#endif
         end_of_step();
     }
     /* quiescence monitors on the final state: a consumer that is registered and waiting must not be starved of an available object */
@@ -121,7 +130,7 @@ void harness(void) {
         EbFifo *f = svt_system_resource_get_consumer_fifo(R, (uint32_t)c);
         if (c_pc[c] == 1 && sem_count(f->counting_semaphore) == 0) {
             V_ASSERT(!(avail && !shutdown_issued), "a registered, blocked consumer exists while a posted object sits unassigned in the full queue (lost wake-up)");
-            V_ASSERT(!shutdown_issued, "a consumer stays blocked after shutdown");
+            V_ASSERT(!shutdown_done, "a consumer stays blocked after shutdown");
         }
     }
     int held = (p_held != NULL); for (int c = 0; c < NCONS; c++) held += (c_held[c] != NULL);
